@@ -6,6 +6,7 @@ import EudoxiaModel.Proofs.PrioBudget
 import EudoxiaModel.Proofs.WorldLive
 import EudoxiaModel.Proofs.PoolLoop
 import EudoxiaModel.Proofs.PoolExample
+import EudoxiaModel.Proofs.FreshWorlds
 /-! # C16 — priority-pool keeps batch work and latency-sensitive work on separate pools -/
 namespace Eudoxia.C16
 open Eudoxia Eudoxia.Prio OpState Extracted
@@ -385,6 +386,19 @@ theorem run_completes_in_a_concrete_world (n : Nat) :
     ∃ w' st' res', PP.loop (NaiveExample.world true) {} [] ([0] :: List.replicate n []) = .ok (w', st', res') ∧ SepInv w' st' res' := by
   have := run_completes_with_classes_apart ([0] :: List.replicate n []) (NaiveExample.world true) {} []
     (by rw [PoolExample.flatten_arrivals]; exact PoolExample.inv) (fresh_world_separated _ _ _ _)
+  simpa using this
+
+/-- **from every fresh world**: whatever the configuration (multi-operator containers), the two pools (each with some CPU and RAM) and the registered workload
+of well-formed pipelines, and whatever the arrival batches, the run of priority-pool and the executor reaches its last tick with batch work only ever on pool 1
+and query / interactive work only ever on pool 0 -/
+theorem classes_stay_apart_from_every_fresh_world (cfg : Cfg) (store : Store) (pipes : Array PipeInfo) (c0 c1 : Nat × Nat) (arrivals : List (List Nat))
+    (hm : cfg.multiOp = true) (hq : 0 < cfg.q) (h0 : 0 < c0.1 ∧ 0 < c0.2) (h1 : 0 < c1.1 ∧ 0 < c1.2)
+    (wf : (freshWorld cfg store pipes [c0, c1]).WFP) (hs : (freshWorld cfg store pipes [c0, c1]).SegsOK) (hp : (freshWorld cfg store pipes [c0, c1]).PidOK)
+    (ht : (freshWorld cfg store pipes [c0, c1]).Topo) (hF : arrivals.flatten.Nodup)
+    (hfut : ∀ pid ∈ arrivals.flatten, (pipes.getD pid default).order ≠ [] ∧ ∀ o ∈ (pipes.getD pid default).order, store.stOf o = pending) :
+    ∃ w' st' res', PP.loop (freshWorld cfg store pipes [c0, c1]) {} [] arrivals = .ok (w', st', res') ∧ SepInv w' st' res' := by
+  have := run_completes_with_classes_apart arrivals (freshWorld cfg store pipes [c0, c1]) {} []
+    (PP.fresh_inv cfg store pipes c0 c1 _ hm hq h0 h1 wf hs hp ht hF hfut) (fresh_world_separated _ _ _ _)
   simpa using this
 
 end Eudoxia.C16
